@@ -12,22 +12,41 @@ READS = [(ORSWOT, n) for n in ('read', 'read_ctx', 'contains', 'iter')] + \
         [(MAP, n) for n in ('len', 'is_empty', 'read_ctx', 'get', 'keys', 'values', 'iter')]
 
 
+def _readctx_alts(t):
+    """ReadCtx aggregate alternatives of a return term (a single aggregate or a phi of aggregates)."""
+    t = drop_lv(t)
+    alts = phi_alts(t)
+    if alts and all(a[0] == 'agg' and a[1] == READCTX for a in alts):
+        return alts
+    return None
+
+
 def _readctx_of(facts, body):
-    """(ReadCtx aggregate term, mapping to the public fn's parameters) for a read entry point:
-    either the function returns the aggregate or it returns map(iter(..), closure returning it)."""
+    """(list of ReadCtx aggregate terms, mapping to the public fn's parameters, body holding them) for a read entry point:
+    either the function returns the aggregate(s) or it returns map(iter(..), closure returning it)."""
     it = interp(facts, body)
     r = drop_lv(it.ret)
-    if r[0] == 'agg' and r[1] == READCTX:
-        return r, {}, body
+    alts = _readctx_alts(r)
+    if alts:
+        return alts, {}, body
     if is_call(r, 'map') and len(r[2]) == 2:
         for clo, m in closure_bindings(r):
             cb = facts.by_uid.get(clo[1])
             if cb is None:
                 continue
-            cr = drop_lv(interp(facts, cb).ret)
-            if cr[0] == 'agg' and cr[1] == READCTX:
-                return subst(cr, m), m, cb
+            alts = _readctx_alts(interp(facts, cb).ret)
+            if alts:
+                return [subst(a, m) for a in alts], m, cb
     return None, None, None
+
+
+def _is_empty_clock(t):
+    t = drop_lv(t)
+    if t[0] == 'call' and call_name(t) in ('default', 'new') and (cinfo(t[1])['self'] or '').endswith('VClock'):
+        return True
+    if t[0] == 'call' and call_name(t) in ('default',) and not t[2]:
+        return True
+    return False
 
 
 @rule('CTX-READ', {
@@ -45,65 +64,81 @@ def ctx_read(ctx):
         inst = '%s::%s' % (adt.split('::')[-1], name)
         props = ['C07'] + (['C04'] if adt == ORSWOT else ['C05'])
         body = ctx.inherent(adt, name)
-        agg, m, where = _readctx_of(facts, body)
-        if agg is None:
+        aggs, m, where = _readctx_of(facts, body)
+        if aggs is None:
             ctx.shape(inst, body, 'does not return a ReadCtx (directly or per item)', props=props)
             continue
-        f = dict(agg[3])
-        add, rmc, val = f.get('add_clock'), f.get('rm_clock'), f.get('val')
-        rmc = inline_option_maps(facts, rmc)
         replica = ('field', ('param', 1), r['clock'])
         errs = []
-        if drop_lv(add) != replica:
-            errs.append('add_clock is %s, expected the replica clock' % fmt(add, 5))
-        if name in WHOLE:
-            if drop_lv(rmc) != replica:
-                errs.append('rm_clock of a whole-collection read is %s, expected the replica clock' % fmt(rmc, 5))
-        else:
-            ev = elem_value_of(rmc)
-            if ev is None:
-                errs.append('rm_clock is %s, expected the witness clock of the element' % fmt(rmc, 5))
+        n_elem = 0
+        for agg in aggs:
+            f = dict(agg[3])
+            add, rmc, val = f.get('add_clock'), f.get('rm_clock'), f.get('val')
+            rmc = inline_option_maps(facts, rmc)
+            if drop_lv(add) != replica:
+                errs.append('add_clock is %s, expected the replica clock' % fmt(add, 5))
+            if name in WHOLE:
+                if drop_lv(rmc) != replica:
+                    errs.append('rm_clock of a whole-collection read is %s, expected the replica clock' % fmt(rmc, 5))
             else:
-                cont, key, part, s = ev
-                pc = param_path(cont)
-                if not (pc and pc[0] == 1 and pc[1] == (r['entries'],) and part == 'value' and tuple(s) == tuple(sub)):
-                    errs.append('rm_clock is %s, expected entries[element]%s' % (fmt(rmc, 5), ''.join('.' + x for x in sub)))
-                elif name in PER_ELEM_KEY:
-                    if versionless(key) != ('param', 2):
-                        errs.append('rm_clock is looked up under %s instead of the requested element' % fmt(key, 4))
-                    if not is_call(drop_lv(rmc), ('unwrap_or_default', 'unwrap_or', 'unwrap_or_else')):
-                        errs.append('rm_clock of an absent element is not the empty clock')
-                    # val from the same lookup
-                    vv = drop_lv(val)
-                    lookups = [st for st in subterms(vv) if is_call(st, ('get', 'contains_key')) and len(st[2]) == 2]
-                    good = [st for st in lookups if param_path(st[2][0]) and param_path(st[2][0])[:2] == (1, (r['entries'],)) and versionless(st[2][1]) == ('param', 2)]
-                    if not good:
-                        errs.append('val is not derived from the lookup of the requested element')
+                if len(aggs) > 1 and name in PER_ELEM_KEY and _is_empty_clock(rmc):
+                    # explicit "absent" alternative: empty remove context, and the value must say absent
+                    vv0 = drop_lv(val)
+                    if not ((vv0[0] == 'const' and vv0[1] in (0, False)) or is_variant(vv0, 'option::Option', 'None')):
+                        errs.append('an alternative with an empty rm_clock reports the element as present (%s)' % fmt(vv0, 3))
+                    continue
+                ev = elem_value_of(rmc)
+                if ev is None:
+                    errs.append('rm_clock is %s, expected the witness clock of the element' % fmt(rmc, 5))
                 else:
-                    if key != '*':
-                        errs.append('per-item read does not range over the entries')
-        # the value read
-        vv = drop_lv(inline_option_maps(facts, val))
-        ent = ('field', ('param', 1), r['entries'])
-        if name == 'read':
-            ok_v = is_call(vv, 'collect') and vv[2] and whole_iteration_over(vv[2][0], 1, (r['entries'],)) and iter_source(vv[2][0])[1] == 'keys' and not iter_source(vv[2][0])[2]
-            if not ok_v:
-                errs.append('val is %s, expected every key of entries' % fmt(vv, 4))
-        elif name in ('len', 'is_empty'):
-            if not (is_call(vv, name) and vv[2] and param_path(vv[2][0]) == (1, (r['entries'],))):
-                errs.append('val is %s, expected entries.%s()' % (fmt(vv, 4), name))
-        elif name in PER_ELEM_ITER:
-            e = elem_value_of(vv)
-            want_part = {'keys': ('key', ()), 'values': ('value', ('val',))}.get(name)
-            if adt == ORSWOT:
-                want_part = ('key', ())
-            if want_part is not None:
-                if not (e and param_path(e[0]) == (1, (r['entries'],)) and e[2] == want_part[0] and tuple(e[3]) == want_part[1]):
-                    errs.append('val of the item is %s, expected the entry %s' % (fmt(vv, 4), 'key' if want_part[0] == 'key' else 'value'))
-        elif name == 'get':
-            e = elem_value_of(vv)
-            if not (e and param_path(e[0]) == (1, (r['entries'],)) and versionless(e[1]) == ('param', 2) and tuple(e[3]) == ('val',)):
-                errs.append('val is %s, expected the nested value stored under the key' % fmt(vv, 4))
+                    cont, key, part, s = ev
+                    pc = param_path(cont)
+                    if not (pc and pc[0] == 1 and pc[1] == (r['entries'],) and part == 'value' and tuple(s) == tuple(sub)):
+                        errs.append('rm_clock is %s, expected entries[element]%s' % (fmt(rmc, 5), ''.join('.' + x for x in sub)))
+                    elif name in PER_ELEM_KEY:
+                        n_elem += 1
+                        if versionless(key) != ('param', 2):
+                            errs.append('rm_clock is looked up under %s instead of the requested element' % fmt(key, 4))
+                        if len(aggs) == 1 and not is_call(drop_lv(rmc), ('unwrap_or_default', 'unwrap_or', 'unwrap_or_else')):
+                            errs.append('rm_clock of an absent element is not the empty clock')
+                        # val from the same lookup
+                        vv = drop_lv(val)
+                        lookups = [st for st in subterms(vv) if is_call(st, ('get', 'contains_key')) and len(st[2]) == 2]
+                        good = [st for st in lookups if param_path(st[2][0]) and param_path(st[2][0])[:2] == (1, (r['entries'],)) and versionless(st[2][1]) == ('param', 2)]
+                        if not good and not (len(aggs) > 1 and vv[0] == 'const'):
+                            errs.append('val is not derived from the lookup of the requested element')
+                    else:
+                        n_elem += 1
+                        if key != '*':
+                            errs.append('per-item read does not range over the entries')
+        if name not in WHOLE and not n_elem and not errs:
+            errs.append('no alternative takes rm_clock from the element witness clock')
+        agg = aggs[0]
+        val = dict(agg[3]).get('val')
+        if len(aggs) > 1:
+            val = None
+        # the value read (single-aggregate form)
+        if val is not None:
+            vv = drop_lv(inline_option_maps(facts, val))
+            if name == 'read':
+                ok_v = is_call(vv, 'collect') and vv[2] and whole_iteration_over(vv[2][0], 1, (r['entries'],)) and iter_source(vv[2][0])[1] == 'keys' and not iter_source(vv[2][0])[2]
+                if not ok_v:
+                    errs.append('val is %s, expected every key of entries' % fmt(vv, 4))
+            elif name in ('len', 'is_empty'):
+                if not (is_call(vv, name) and vv[2] and param_path(vv[2][0]) == (1, (r['entries'],))):
+                    errs.append('val is %s, expected entries.%s()' % (fmt(vv, 4), name))
+            elif name in PER_ELEM_ITER:
+                e = elem_value_of(vv)
+                want_part = {'keys': ('key', ()), 'values': ('value', ('val',))}.get(name)
+                if adt == ORSWOT:
+                    want_part = ('key', ())
+                if want_part is not None:
+                    if not (e and param_path(e[0]) == (1, (r['entries'],)) and e[2] == want_part[0] and tuple(e[3]) == want_part[1]):
+                        errs.append('val of the item is %s, expected the entry %s' % (fmt(vv, 4), 'key' if want_part[0] == 'key' else 'value'))
+            elif name == 'get':
+                e = elem_value_of(vv)
+                if not (e and param_path(e[0]) == (1, (r['entries'],)) and versionless(e[1]) == ('param', 2) and tuple(e[3]) == ('val',)):
+                    errs.append('val is %s, expected the nested value stored under the key' % fmt(vv, 4))
         ctx.check(not errs, inst, where, 'add_clock = replica clock, rm_clock = %s' % ('replica clock' if name in WHOLE else 'element witness clock'),
                   errs[0] if errs else '', details={'ReadCtx': fmt(agg, 6)}, props=props)
 
